@@ -93,6 +93,11 @@ func TestVerifC02(t *testing.T) {
 	queries := vQueries(kit.Thorough())
 	scratch := kit.Scratch()
 	if kit.ReplayPath() != "" {
+		var wc c02wCase
+		if err := kit.LoadReplay(&wc); err == nil && wc.Wide {
+			c02WideReplay(rep, scratch, wc)
+			return
+		}
 		var c c02Case
 		if err := kit.LoadReplay(&c); err != nil {
 			t.Fatal(err)
@@ -100,6 +105,16 @@ func TestVerifC02(t *testing.T) {
 		c02RunHistory(rep, vMkdir(scratch, "replay"), c.Ops, queries, true)
 		return
 	}
+	if c02StageWanted("narrow") {
+		c02NarrowStage(rep, scratch, queries)
+	}
+	if c02StageWanted("wide") && !rep.Expired() {
+		vSetupEngineKnobs()
+		c02WideStage(rep, scratch)
+	}
+}
+
+func c02NarrowStage(rep *kit.Report, scratch string, queries []vQuery) {
 	ops := vAllOps()
 	depth := 3
 	if kit.Thorough() {
@@ -120,6 +135,13 @@ func TestVerifC02(t *testing.T) {
 		return
 	}
 	c02Explore(rep, scratch, ops, depth, queries, nil)
+}
+
+// c02NarrowStage / c02WideStage are selected by VERIF_C02_STAGE (narrow | wide | unset = both); the wide stage runs
+// with the share of the deadline the narrow stage left (both stop at the deadline with exhaustive:false).
+func c02StageWanted(name string) bool {
+	s := kit.Getenv("VERIF_C02_STAGE", "")
+	return s == "" || s == name
 }
 
 // c02Explore enumerates every op sequence of length depth (prefix-closed oracle), pruning after a
